@@ -8,6 +8,7 @@
 //	hist      sequential histories under several flush/compaction placements + metamorphic comparison
 //	conc      queries during flushes: flushes parked at chosen points of DataFamily.Flush, and free running flushes
 //	directed  fixed scenarios: arrival order of first/last fields, two memory databases created in one clock tick
+//	big       > 65 536 series of one metric in one memory database (parallel data load stages per series container)
 //
 // Debugging one case by hand (LOG_LEVEL=fatal TZ=UTC VERIF_SEED=n bin/c11 case hist <idx> <dir> quick):
 // C11_VERBOSE=1 prints every mismatch with its diagnostics, C11_ONLY_STYLE=<placement> runs one placement,
@@ -69,6 +70,11 @@ func main() {
 	nDir := c.Pick(2, 12)
 	for i := 0; i < nDir; i++ {
 		jobs = append(jobs, job{"directed", i})
+	}
+	nBig := c.Pick(1, 6)
+	for i := 0; i < nBig; i++ {
+		// first in the list: the longest cases
+		jobs = append([]job{{"big", i}}, jobs...)
 	}
 	scratch := c.Scratch()
 	results := make([]*caseResult, len(jobs))
@@ -175,6 +181,8 @@ func runCaseChild() {
 		res = runConcCase(idx, dir, tier, seed)
 	case "directed":
 		res = runDirectedCase(idx, dir, tier, seed)
+	case "big":
+		res = runBigCase(idx, dir, tier, seed)
 	default:
 		fmt.Println("unknown case kind", kind)
 		os.Exit(4)
